@@ -39,6 +39,35 @@ fn main() {
     });
     ctx.begin();
 
+    // the pair combinator's convenience impls: From<T> builds both components from the same value, Default is the
+    // pair of identities
+    {
+        use rlib_segtree::segtree_items::{Combinator, MaxAdd, MinAdd, SumAdd};
+        use rlib_segtree::SegtreeItem;
+        type C2 = Combinator<MinAdd<i64>, MaxAdd<i64>>;
+        type C3 = Combinator<SumAdd<i64>, C2>;
+        let mut ok = true;
+        let mut n = 0u64;
+        for v in [-5i64, 0, 1, 7, 1 << 40, -(1 << 40)] {
+            let c: C3 = Combinator::from(v);
+            ok &= c.0.v == v && c.0.len == 1 && c.0.md == 0 && (c.1).0.v == v && (c.1).1.v == v && (c.1).0.md == 0 && (c.1).1.md == 0;
+            let d = C3::default();
+            let m = C3::merge(&d, &c);
+            ok &= m.0.v == v && m.0.len == 1 && (m.1).0.v == v && (m.1).1.v == v;
+            let m = C3::merge(&c, &d);
+            ok &= m.0.v == v && m.0.len == 1 && (m.1).0.v == v && (m.1).1.v == v;
+            let mut tree: rlib_segtree::Segtree<C3, i64> = rlib_segtree::Segtree::new(5, Combinator::from(v));
+            tree.modify(1, 3, &2);
+            let a = tree.ask(0, 4);
+            ok &= a.0.v == 5 * v + 6 && (a.1).0.v == v && (a.1).1.v == v + 2;
+            n += 1;
+        }
+        if !ok {
+            let v = vcore::Violation::new("combinator/from-default", "Combinator::from / Default / merge with the identity do not behave like the two components side by side");
+            ctx.violation("combinator-from-default", "segtree-history", &Case { alg: 7, nonneg: false, init: Ctor::New { n: 5, v: 0 }, ops: vec![] }, &v);
+        }
+        ctx.class("combinator-from-default-checks", n);
+    }
     let law_strat = (0u8..4, prop::collection::vec(any::<u32>(), 3..12), any::<u32>(), any::<u32>())
         .prop_map(|(alg, raws, m1, m2)| LawCase { alg, raws, m1, m2 });
     ctx.prop("harness-item-laws", "law", ctx.n(2_000, 20_000), law_strat, laws);
